@@ -1,6 +1,7 @@
 package main
 
 import (
+	"crypto/sha1"
 	"encoding/binary"
 	"fmt"
 	"strconv"
@@ -267,7 +268,52 @@ func (c *TrieCase) NewEv(ec, pan string) Ev {
 		"enc": c.Enc, "opt": c.Opt4[:], "noopt": c.NoOpt, "err": ec, "pan": pan}
 }
 
-// Reload marshals st and unmarshals the bytes into a NEW instance.
+// usedReceiver decides, as a function of the case alone (so that a replay makes the
+// same choice), whether the loaded trie of this case is loaded into a fresh instance or
+// into one that has held and served another index before.
+func (c *TrieCase) usedReceiver() bool {
+	h := sha1.New()
+	for _, k := range c.Keys {
+		h.Write([]byte(k))
+		h.Write([]byte{0})
+	}
+	return h.Sum(nil)[0]&1 == 1
+}
+
+// warmReceiver returns an instance that holds a DIFFERENT non-empty index built with the
+// same encoder and options and that has answered every kind of read call (so that
+// anything the library memoises per instance is filled in), or nil.
+func warmReceiver(c *TrieCase) (st *trie.SlimTrie) {
+	defer func() {
+		if r := recover(); r != nil {
+			st = nil
+		}
+	}()
+	w := &TrieCase{Keys: []string{"", "A", "Ab", "Abc", "B", "\xff\xff"}, Enc: c.Enc, Opt4: c.Opt4, NoOpt: c.NoOpt}
+	if c.HasVals() && len(c.Vals) > 0 {
+		for i := range w.Keys {
+			w.Vals = append(w.Vals, c.Vals[i%len(c.Vals)])
+		}
+	}
+	st, _, _ = w.Build()
+	if st == nil {
+		return nil
+	}
+	func() {
+		defer func() { recover() }()
+		_ = st.String()
+		_ = st.Stat()
+		_, _ = st.Marshal()
+		for _, q := range []string{"", "A", "Abc", "Az", "\xff\xff", "zz"} {
+			observe(w, st, q)
+		}
+		st.ScanFrom("", true, true, func(k, v []byte) bool { return true })
+	}()
+	return st
+}
+
+// Reload marshals st and unmarshals the bytes into another instance: a new one, or
+// (for about half of the cases) one that served a different index before.
 func Reload(c *TrieCase, st *trie.SlimTrie) (st2 *trie.SlimTrie, ec string, pan string) {
 	defer func() {
 		if r := recover(); r != nil {
@@ -278,7 +324,12 @@ func Reload(c *TrieCase, st *trie.SlimTrie) (st2 *trie.SlimTrie, ec string, pan 
 	if err != nil {
 		return nil, "other", ""
 	}
-	st2, err = trie.NewSlimTrie(c.encoder(), nil, nil)
+	if c.usedReceiver() {
+		st2 = warmReceiver(c)
+	}
+	if st2 == nil {
+		st2, err = trie.NewSlimTrie(c.encoder(), nil, nil)
+	}
 	if err != nil {
 		return nil, errClass(err), ""
 	}
